@@ -137,7 +137,7 @@ func genRoute(r *rand.Rand, i int) (routeCase, []string) { //nolint:cyclop
 		c.Rate = 2_000_000 + r.Intn(8_000_000)
 		bk["rate-mid"] = true
 	}
-	var infos []uint32 // StreamInfo.SSRC of the bindings made so far
+	var infos []uint32           // StreamInfo.SSRC of the bindings made so far
 	seq := uint16(r.Intn(65536)) //nolint:gosec
 	bind := func(info uint32, pauseUS int) {
 		for _, x := range infos {
